@@ -84,4 +84,7 @@ points complete for 12 core shapes, sampled for the rest; real SIGKILL for 1 sce
 leanchecker, 14,566 cases, 0 disagreements, 103 oracle failures all in the two listed classes; 23 min 49 s wall,
 43 CPU-min (user 20 + sys 23, mostly process spawning) on the shared machine - over the ~15 min target.  The real-kill
 share has since been cut to 1 in 6; that configuration has NOT been timed yet.
+Quiet machine (load < 30, 2026-09-22 afternoon), after the fix phase: quick 27 s warm / 62-97 s with a cold proof build;
+thorough (14,566 cases, real SIGKILL for 1 scenario in 6, leanchecker) 3 min 17 s.  Both tiers are within their targets there;
+the figures above were measured at load average 40-150.
 """
